@@ -6,6 +6,7 @@ mod engine;
 mod gens;
 mod model;
 mod props;
+mod vrlx;
 
 use std::path::PathBuf;
 
